@@ -649,7 +649,7 @@ def parameters_search(rounds=1500, seed=0):
     from pydsol.core.model import DSOLModel
     from pydsol.core.simulator import DEVSSimulatorFloat
     rng = random.Random(seed)
-    cands = [0, 1, -3, 7, 50, 2.5, -0.5, 1e9, "a", "b", "zz", True, False, None, [1]]
+    cands = [0, 1, -3, 7, 50, 2.5, -0.5, 1e9, "a", "b", "zz", True, False, None, [1], float("nan"), float("inf"), float("-inf")]
 
     def mk(kind, key, ro, parent=None):
         if kind == "int":
@@ -793,6 +793,19 @@ def parameters_search(rounds=1500, seed=0):
                     return {"tree": "root{a{b{x,y},x}}", "failure": "get(%r) returned another parameter" % path}
             except Exception as e:
                 return {"tree": "root{a{b{x,y},x}}", "failure": "get(%r) raised %s: %s" % (path, type(e).__name__, e)}
+        # a nested map carrying its ancestor's key, and a later segment that ends in the first one
+        g1 = InputParameterMap("gen", "gen", 2.0, parent=root)
+        g2 = InputParameterMap("gen", "gen", 1.0, parent=g1)
+        r_in, _ = mk("int", "rate", False, parent=g2)
+        r_out, _ = mk("int", "rate", False, parent=g1)
+        sg = InputParameterMap("subgen", "subgen", 3.0, parent=g1)
+        cap, _ = mk("int", "cap", False, parent=sg)
+        for path, obj in (("gen.gen.rate", r_in), ("gen.rate", r_out), ("gen.subgen.cap", cap), ("gen.gen", g2)):
+            try:
+                if root.get(path) is not obj:
+                    return {"tree": "root{gen{gen{rate},rate,subgen{cap}}}", "failure": "get(%r) returned another parameter" % path}
+            except Exception as e:
+                return {"tree": "root{gen{gen{rate},rate,subgen{cap}}}", "failure": "get(%r) raised %s: %s" % (path, type(e).__name__, e)}
         try:
             got = root.remove("a.b.x")
         except Exception as e:
@@ -867,8 +880,10 @@ DIST_GRID = {
     "DistPearson6": [(0.5, 0.5, 1.0), (2.0, 3.0, 1.5)], "DistBeta": [(0.5, 0.5), (2.0, 3.0)], "DistPoisson": [(0.5,), (4.0,)],
     "DistTriangular": [(0.0, 0.0, 1.0), (0.0, 1.0, 1.0), (-1.0, 0.5, 2.0)], "DistUniform": [(1.0, 2.0)],
     "DistWeibull": [(0.5, 1.0), (2.0, 3.0)],
+    "DistNormalTrunc": [(0.0, 1.0, -1.0, 2.0), (10.0, 1.0, 0.0, 20.0), (0.0, 1.0, -1.0, 10.0), (0.0, 2.0, -8.0, 0.5)],
 }
 SUPPORT = {
+    "DistNormalTrunc": lambda p, r: p[2] <= r <= p[3],
     "DistBernoulli": lambda p, r: r in (0, 1), "DistBinomial": lambda p, r: isinstance(r, int) and 0 <= r <= p[0],
     "DistDiscreteUniform": lambda p, r: isinstance(r, int) and p[0] <= r <= p[1], "DistConstant": lambda p, r: r == p[0],
     "DistExponential": lambda p, r: r >= 0, "DistGamma": lambda p, r: r >= 0, "DistErlang": lambda p, r: r >= 0,
@@ -993,12 +1008,12 @@ def si_ops_search():
     import pydsol.core.units as u
     Q = u.QUANTITIES
     for i, a in enumerate(Q):
-        x = a(3.0)
+        x = a(5.0)          # 5 / 3: quotient and reciprocal round differently (a / b is not a * (1 / b))
         xs = x.asSI()
         if list(xs.sisig()) != list(a.sisig()) or float(xs) != x.si:
             return {"class": a.__name__, "failure": "asSI() gives signature %s value %r; the class has %s, value %r" % (list(xs.sisig()), float(xs), list(a.sisig()), x.si)}
         for b in Q[i % 3::3]:
-            y = b(2.0)
+            y = b(3.0)
             for name, f, sign, val in (("*", lambda p, q_: p * q_, 1, x.si * y.si), ("/", lambda p, q_: p / q_, -1, x.si / y.si)):
                 want = [s1 + sign * s2 for s1, s2 in zip(a.sisig(), b.sisig())]
                 for left, right in ((xs, y), (xs, y.asSI()), (x, y.asSI())):
@@ -1049,7 +1064,7 @@ def nan_parameter_probe():
             if isinstance(v, int) and not isinstance(v, bool) and name in ("DistBinomial", "DistDiscreteUniform", "DistErlang", "DistNegBinomial") \
                     and isinstance(base[i], int):
                 continue        # integer parameters cannot be NaN
-            if name == "DistConstant" or (name in ("DistNormal", "DistLogNormal") and i == 0):
+            if name == "DistConstant" or (name in ("DistNormal", "DistLogNormal", "DistNormalTrunc") and i == 0):
                 continue        # parameters without a documented bound (any number): NaN is not "outside a domain"
             args = list(base)
             args[i] = nan
@@ -1116,6 +1131,9 @@ def ctor_domain_search(cls_name):
 
 @replayer(r"(Dist\w+|Distribution)\.(draw|_next_gaussian|_set_stream|__init__|stream@setter)")
 def replay_dist(rec):
+    if rec.get("obligation") == "bounded-sweep-normaltrunc":
+        f = dist_search("DistNormalTrunc")
+        return {"reproduced": bool(f), "input": f, "observed": f["failure"] if f else None, "note": "every draw within the bounds, none raised"}
     if rec.get("obligation") == "witness-nan-parameters":
         f = nan_parameter_probe()
         return {"reproduced": bool(f), "input": f, "observed": f["failure"] if f else None, "note": "every NaN parameter is rejected"}
